@@ -221,7 +221,7 @@ class EffectVisitor(ast.NodeVisitor):
         self.in_classmethod: list[bool] = []
 
     def where(self, node):
-        return f"{self.modname}:{'.'.join(self.scope) or '<module>'}:{node.lineno}"
+        return f"{self.modname}:{'.'.join(self.scope) or '<module>'}"
 
     def is_class_ref(self, node) -> str | None:
         """cls / ClassName / type(self) / self.__class__ expressions → a description"""
@@ -410,7 +410,7 @@ def extract_effects(repo: Path) -> dict:
     loops_list = sorted(f'{k}x{v}' for k, v in loops_agg.items())
     raises_nc = sorted({f"{r['where']}#{r['exc']}" for r in raises if not r['compile']})
     raises_c = sorted({f"{r['where']}#{r['exc']}" for r in raises if r['compile']})
-    return dict(sharedWrites=sorted(f"{w['where']}#{w['kind']}#{w['target']}" for w in writes),
+    return dict(sharedWrites=sorted({f"{w['where']}#{w['kind']}#{w['target']}" for w in writes}),
                 loops=loops_list, selfRecursive=rec, raisesNonCompile=raises_nc, raisesCompile=raises_c)
 
 
